@@ -69,8 +69,9 @@ class ModuleInfo:
 
 
 class Program:
-    def __init__(self, root=REPO):
+    def __init__(self, root=REPO, inline=True):
         self.root = root
+        self.inline = inline and not os.environ.get("AEGEAN_NO_INLINE")
         self.modules: dict[str, ModuleInfo] = {}
         self.functions: dict[str, FuncInfo] = {}
         self.classes: dict[str, ClassInfo] = {}
@@ -113,6 +114,10 @@ class Program:
             self._index(mi)
 
     def _index(self, mi: ModuleInfo):
+        if self.inline:
+            for n in ast.walk(mi.tree):
+                if isinstance(n, (ast.FunctionDef, ast.AsyncFunctionDef)):
+                    inline_pure_locals(n)
         pkgparts = mi.name.split(".")
         for node in mi.tree.body:
             if isinstance(node, ast.Import):
@@ -305,6 +310,195 @@ class Program:
 
 
 # --------------------------------------------------------------------------
+# normalisation: named pure intermediates are folded into their uses
+# --------------------------------------------------------------------------
+PURE_CALLS = {"min", "max", "int", "len"}
+_ARITH_OPS = (ast.Add, ast.Sub, ast.Mult, ast.FloorDiv, ast.Pow, ast.LShift,
+              ast.RShift, ast.Mod)
+
+
+def _pure_expr(e):
+    """integer-style arithmetic over names / attributes / literals, or
+    min/max/int/len of such: `2**depth`, `4**(d - self.maxdepth)`, `4*p`,
+    `min(self.maxdepth, other.maxdepth)`, `ymin - data_row_min`"""
+    if not isinstance(e, (ast.BinOp, ast.Call)):
+        return False          # plain aliases and literals stay named
+    for n in ast.walk(e):
+        if isinstance(n, ast.Call):
+            try:
+                fn = ast.unparse(n.func)
+            except Exception:
+                return False
+            if fn not in PURE_CALLS or n.keywords:
+                return False
+        elif isinstance(n, ast.BinOp):
+            if not isinstance(n.op, _ARITH_OPS):
+                return False
+        elif isinstance(n, ast.UnaryOp):
+            if not isinstance(n.op, (ast.USub, ast.UAdd)):
+                return False
+        elif isinstance(n, ast.Constant):
+            if not isinstance(n.value, int) or isinstance(n.value, bool):
+                return False
+        elif isinstance(n, ast.Attribute):
+            if not isinstance(n.value, ast.Name):
+                return False
+        elif not isinstance(n, (ast.Name, ast.Load, ast.operator,
+                                ast.unaryop)):
+            return False
+    return True
+
+
+def inline_pure_locals(fnode, max_size=90):
+    """Replace every use of a local name that is assigned exactly once, by a
+    pure expression over stable operands, with that expression (the
+    assignment stays).  `nside = 2**depth` / `factor = 4**(d - k)` /
+    `finite = np.isfinite(a)` style intermediates then look the same to the
+    rules whether or not the author named them.  Rules never depend on the
+    folded names; behaviour of the analysed program is unchanged because the
+    operands are stable between definition and use (single assignment,
+    parameters, or loop targets of a loop enclosing both)."""
+    params = {a.arg for a in fnode.args.posonlyargs + fnode.args.args +
+              fnode.args.kwonlyargs}
+    if fnode.args.vararg:
+        params.add(fnode.args.vararg.arg)
+    if fnode.args.kwarg:
+        params.add(fnode.args.kwarg.arg)
+    stores = {}
+    loop_targets = {}
+    parent = {}
+    for n in ast.walk(fnode):
+        for c in ast.iter_child_nodes(n):
+            parent[c] = n
+    own = []          # nodes of this function, not of nested defs
+    stack = list(ast.iter_child_nodes(fnode))
+    while stack:
+        n = stack.pop()
+        own.append(n)
+        if isinstance(n, (ast.FunctionDef, ast.AsyncFunctionDef,
+                          ast.ClassDef, ast.Lambda)):
+            # names used inside nested scopes are left alone
+            for x in ast.walk(n):
+                if isinstance(x, ast.Name):
+                    stores.setdefault(x.id, []).append(None)
+            continue
+        stack.extend(ast.iter_child_nodes(n))
+    for n in own:
+        if isinstance(n, ast.Name) and isinstance(n.ctx, (ast.Store,
+                                                          ast.Del)):
+            stores.setdefault(n.id, []).append(n)
+        if isinstance(n, (ast.For, ast.AsyncFor)):
+            for x in ast.walk(n.target):
+                if isinstance(x, ast.Name):
+                    loop_targets.setdefault(x.id, []).append(n)
+        if isinstance(n, (ast.Global, ast.Nonlocal)):
+            for nm in n.names:
+                stores.setdefault(nm, []).append(None)
+        if isinstance(n, ast.ExceptHandler) and n.name:
+            stores.setdefault(n.name, []).append(None)
+
+    def enclosing_loops(n):
+        out = []
+        while n in parent and n is not fnode:
+            n = parent[n]
+            if isinstance(n, (ast.For, ast.AsyncFor, ast.While)):
+                out.append(n)
+        return out
+
+    cands = {}
+    for n in own:
+        if isinstance(n, ast.Assign) and len(n.targets) == 1 and \
+                isinstance(n.targets[0], ast.Name):
+            nm = n.targets[0].id
+            if nm in params or len(stores.get(nm, [])) != 1:
+                continue
+            if not _pure_expr(n.value):
+                continue
+            try:
+                if len(ast.unparse(n.value)) > max_size:
+                    continue
+            except Exception:
+                continue
+            if isinstance(n.value, (ast.Constant, ast.Name)) and \
+                    not isinstance(n.value, ast.Name):
+                pass
+            cands[nm] = n
+    # operands must be stable between the definition and each use: this is
+    # checked per use below (no store to an operand between the two lines,
+    # nor inside a loop that contains the use but not the definition)
+    good = dict(cands)
+
+    def use_ok(use, st):
+        ul, dl = getattr(use, "lineno", 0), st.lineno
+        loops_use = enclosing_loops(use)
+        loops_def = enclosing_loops(st)
+        extra = [l for l in loops_use if l not in loops_def]
+        for x in ast.walk(st.value):
+            if not isinstance(x, ast.Name):
+                continue
+            for store in stores.get(x.id, []):
+                if store is None:
+                    return False
+                sl = getattr(store, "lineno", 0)
+                if dl < sl <= ul:
+                    return False
+                if any(store in ast.walk(l) for l in extra):
+                    return False
+        return True
+    if not good:
+        return 0
+    import copy
+    count = 0
+    for _ in range(3):
+        changed = False
+        for n in list(own):
+            if not (isinstance(n, ast.Name) and isinstance(n.ctx, ast.Load)
+                    and n.id in good):
+                continue
+            st = good[n.id]
+            if getattr(n, "lineno", 0) <= st.lineno:
+                continue
+            if not use_ok(n, st):
+                continue
+            # the use must be inside every loop that encloses the definition
+            if any(l not in enclosing_loops(n) for l in enclosing_loops(st)):
+                continue
+            par = parent.get(n)
+            if par is None:
+                continue
+            # do not rewrite the statement that defines another candidate's
+            # own target, nor augmented-assignment targets
+            new = copy.deepcopy(st.value)
+            for x in ast.walk(new):
+                if hasattr(x, "lineno"):
+                    x.lineno = getattr(n, "lineno", x.lineno)
+                    x.col_offset = getattr(n, "col_offset", 0)
+                    x.end_lineno = getattr(n, "end_lineno", x.lineno)
+                    x.end_col_offset = getattr(n, "end_col_offset", 0)
+            done = False
+            for field, val in ast.iter_fields(par):
+                if val is n:
+                    setattr(par, field, new)
+                    done = True
+                elif isinstance(val, list):
+                    for i, v in enumerate(val):
+                        if v is n:
+                            val[i] = new
+                            done = True
+            if done:
+                parent[new] = par
+                for x in ast.walk(new):
+                    for c in ast.iter_child_nodes(x):
+                        parent[c] = x
+                    own.append(x)
+                count += 1
+                changed = True
+        if not changed:
+            break
+    return count
+
+
+# --------------------------------------------------------------------------
 # small ast helpers used by every rule
 # --------------------------------------------------------------------------
 def norm(node, limit=160) -> str:
@@ -471,6 +665,13 @@ class Ctx:
     def unknown_site(self, rule, fi_or_where, construct, node=None):
         where, file, line = self._loc(fi_or_where, node)
         self.unknown.append("%s %s:%s %s" % (rule, where, line, construct))
+
+    def raw_prog(self):
+        """the program model without the folding of named intermediates
+        (for rules that anchor on the names themselves)"""
+        if getattr(self, "_raw", None) is None:
+            self._raw = Program(self.prog.root, inline=False)
+        return self._raw
 
     def rule(self, rid, text):
         self.rules[rid] = text
